@@ -86,7 +86,7 @@ func genC07(o *vcoq.Out, r *vcoq.Rand, tier string) error {
 	o.CaseType = "c07case"
 	o.Judge = "judge"
 	o.Shard = 40
-	o.Rule = "random histories of 4-12 operations: Set/Update/Add/Delete/Get/List/Pull (nil and top-level read/update masks, updates_only, up to 2 backpressured subscriptions, interceptors before/after from {none, set-new, add-old, write-old-scalar, share-old-sub, write-old-element}) on resource.Value and resource.Collection of TestAllTypes; the same through parentpb (AddChild, AddChildTrait, RemoveChildTrait, RemoveChildByName, ListChildren, PullChildren), metadatapb (Update/Merge/Get/Pull) and enterleavesensorpb (Create/ResetTotals/Get/Pull); the caller rewrites every int/string scalar of an earlier argument at random points. Non-trivial: >= 3 operations; distinct by the whole history with observations. Monitor part: every trait model and memory device, methods and arguments chosen by reflection."
+	o.Rule = "random histories of 4-12 operations: Set/Update/Add/Delete/Get/List/Pull (nil and top-level read/update masks, updates_only, up to 3 subscriptions with different masks with and without backpressure - every event value compared with the stored value under the subscription's mask -, interceptors before/after from {none, set-new, add-old, write-old-scalar, share-old-sub, write-old-element}) on resource.Value and resource.Collection of TestAllTypes; the same through parentpb (AddChild, AddChildTrait, RemoveChildTrait, RemoveChildByName, ListChildren, PullChildren), metadatapb (Update/Merge/Get/Pull) and enterleavesensorpb (Create/ResetTotals/Get/Pull); the caller rewrites every int/string scalar of an earlier argument at random points. Non-trivial: >= 3 operations; distinct by the whole history with observations. Monitor part: every trait model and memory device, methods and arguments chosen by reflection."
 	g := &gen{o: o, r: r, hist: map[string]int{}}
 	g.metaCode, g.seedClearCode, g.removeCode, g.unionCode = "IMeta", "SClear", "IRemove", "IUnion"
 	if probeMetadata() {
